@@ -2,7 +2,7 @@
     Only statements live here; each is closed by [exact] of a lemma proved elsewhere. *)
 From Coq Require Import List ZArith Sorted.
 From Coq Require String.
-From V Require Import Gen.Params PktProt.PktNum PktProt.PktNumProofs PktProt.KeyPhase PktProt.KeyPhaseProofs PktProt.KeyDerive PktProt.KeyDeriveProofs PktProt.KeyPhaseRun PktProt.KeyPhaseWindow PktProt.KeyPhaseSys PktProt.KeyPhaseSysProofs PktProt.KeyPhaseExamples PktProt.Sha256 PktProt.InitialKeys PktProt.InitialKeysProofs PktProt.Aes PktProt.InitialProtect PktProt.InitialProtectExamples PktProt.Retry PktProt.RetryProofs PktProt.AesProofs PktProt.ChaCha PktProt.ChaChaExamples Lib.Hex PktProt.Protect PktProt.ProtectProofs PktProt.ProtectExamples PktProt.ProtectPack PktProt.ProtectPackProofs Wire.Varint Wire.VarintProofs Wire.Headers Wire.HeadersProofs PktProt.ProtectLong PktProt.ProtectLongProofs.
+From V Require Import Gen.Params PktProt.PktNum PktProt.PktNumProofs PktProt.KeyPhase PktProt.KeyPhaseProofs PktProt.KeyDerive PktProt.KeyDeriveProofs PktProt.KeyPhaseRun PktProt.KeyPhaseWindow PktProt.KeyPhaseSys PktProt.KeyPhaseSysProofs PktProt.KeyPhaseSysPn PktProt.KeyPhaseSysPnProofs PktProt.KeyPhaseExamples PktProt.Sha256 PktProt.InitialKeys PktProt.InitialKeysProofs PktProt.Aes PktProt.InitialProtect PktProt.InitialProtectExamples PktProt.Retry PktProt.RetryProofs PktProt.AesProofs PktProt.ChaCha PktProt.ChaChaExamples Lib.Hex PktProt.Protect PktProt.ProtectProofs PktProt.ProtectExamples PktProt.ProtectPack PktProt.ProtectPackProofs Wire.Varint Wire.VarintProofs Wire.Headers Wire.HeadersProofs PktProt.ProtectLong PktProt.ProtectLongProofs.
 Import ListNotations.
 Open Scope Z_scope.
 
@@ -329,6 +329,50 @@ Example C05_keyphase_histories_nonvacuous :
              p_gen p = keyPhase (ep (sd sys_example false)) + 1).
 Proof. exact (conj sym_open_seal (conj sym_open_wrong_key sys_example_ok)). Qed.
 Print Assumptions C05_keyphase_histories_nonvacuous.
+
+(** (g) composed with (c): the packet number ON THE WIRE in the two-endpoint system.  Every
+    packet is sent with the length PacketNumberLengthForHeader chooses from the sender's largest
+    acknowledged number at that moment ([las], a ghost log) and carries the truncated number;
+    the receiver calls updatableAEAD.DecodePacketNumber against its highestRcvdPN.  In every
+    reachable state (every interleaving of KeyPhase(), Seal, deliveries in any order and any
+    number of times, ACKs, confirmations), for every packet in flight with fewer than 2^31
+    numbers outstanding at its sender: what its sender knew to be acknowledged is at most the
+    receiver's highestRcvdPN (the sender-side guarantee is a THEOREM here, not a premise), so
+    as long as the receiver has not run ahead of the packet by more than the tolerance of its
+    length, DecodePacketNumber returns the packet's number, and Open on the decoded number
+    gives the plaintext inside the key window of C05_keyphase_histories. *)
+Theorem C05_pn_decode_in_histories :
+  forall (ctext ptext adata : Type)
+         (aead_seal : key -> Z -> adata -> ptext -> ctext)
+         (aead_open : key -> Z -> adata -> ctext -> option ptext),
+    (forall k n ad p, aead_open k n ad (aead_seal k n ad p) = Some p) ->
+    (forall k k' n ad p, k <> k' -> aead_open k n ad (aead_seal k' n ad p) = None) ->
+    forall cfg lim n0 ops, (forall x, 0 <= n0 x) ->
+      let sl := srun2 ctext ptext adata aead_seal aead_open cfg (sinit ptext adata lim n0, []) ops in
+      let s := fst sl in
+      let las := snd sl in
+      forall i p la, nth_error (sent s) i = Some p -> nth_error las i = Some la ->
+        let R := ep (sd s (negb (p_from p))) in
+        let len := wire_len ptext adata p la in
+        p_pn p < 2 ^ 62 -> p_pn p - la <= 2 ^ 31 ->
+        highestRcvdPN R <= p_pn p + reorder_tolerance len ->
+        -1 <= la <= highestRcvdPN R /\
+        2 <= len <= 4 /\
+        ua_decode_pn R (wire_pn ptext adata p la) len = p_pn p /\
+        (forall now pto3,
+           let r := keyPhase R in
+           (p_gen p = r \/ p_gen p = r + 1 \/ (p_gen p = r - 1 /\ prevRcvAEAD R <> None /\ dropped_now R now = false)) ->
+           fst (ua_open ctext ptext adata aead_open R now pto3 (ua_decode_pn R (wire_pn ptext adata p la) len)
+                        (p_gen p mod 2) (p_ad p) (p_ct ctext ptext adata aead_seal p)) = OpenOK (p_pt p)).
+Proof. exact pn_in_system. Qed.
+Print Assumptions C05_pn_decode_in_histories.
+
+Example C05_pn_decode_in_histories_nonvacuous :
+  exists p, nth_error (sent (fst sys_example2)) 1 = Some p /\ nth_error (snd sys_example2) 1 = Some (-1) /\
+    p_pn p < 2 ^ 62 /\ p_pn p - (-1) <= 2 ^ 31 /\
+    highestRcvdPN (ep (sd (fst sys_example2) (negb (p_from p)))) <= p_pn p + reorder_tolerance (wire_len Z Z p (-1)).
+Proof. exact sys_example2_ok. Qed.
+Print Assumptions C05_pn_decode_in_histories_nonvacuous.
 
 Import Coq.Strings.String. (* string literals below; placed here because String.length would shadow List.length above *)
 
